@@ -1248,7 +1248,9 @@ def current_sites(ctx):
     c = {}
     for s_ in explicit_panic_sites(fr):
         if s_["live"]:
-            k = "%s|%s|%s" % (s_["body"], s_["kind"], s_["msg"][:60])
+            # matched by function and message text, not by macro kind: `assert!(c, m)` and `if !c { panic!(m) }` are the same site
+            kind = s_["kind"] if not s_["msg"] else "panic"
+            k = "%s|%s|%s" % (s_["body"], kind, s_["msg"][:60])
             c[k] = c.get(k, 0) + 1
     # checked negation of signed primitives (dev configuration: OverflowNeg assertions)
     fa = ctx.facts("all")
